@@ -33,6 +33,7 @@ theorem rstep_msgs (cfg : RCfg) (s : RR) (e : REv) : ∃ d, (rstep cfg s e).msgs
     · cases e with
       | data d off' oc => cases oc <;> exact ⟨d, rfl⟩
       | cutAfter d => exact ⟨d, rfl⟩
+      | ctxCanceled d => exact ⟨d, rfl⟩
       | kerr code offs =>
         simp only [onKerr]
         split <;> (try split) <;> (try split) <;> exact ⟨[], by simp [toTop, again]⟩
@@ -571,5 +572,129 @@ theorem arun_inv (cfg : RCfg) (items : List Item) (nb : Int) (hnb : 0 ≤ nb) (h
         simp only [hq, Option.some.injEq, Prod.mk.injEq] at hr
         rw [← hr.1]
         exact ih a1 a2 ms' (astep_inv cfg items nb hnb hwf h (hok e (by simp)) hs).1 (fun x hx => hok x (by simp [hx])) hq
+
+end KV.C02
+
+namespace KV.C02
+
+/-! ### no starvation -/
+
+/-- everything stored at or above the start offset has been pushed -/
+def Done (log : List Rec) (s : RR) : Prop := ∃ st, s.start = some st ∧ ∀ r ∈ log, st ≤ r.1 → r ∈ s.msgs
+
+theorem done_step (cfg : RCfg) {log : List Rec} {s : RR} (e : REv) (h : Done log s) : Done log (rstep cfg s e) := by
+  obtain ⟨st, hst, hall⟩ := h
+  obtain ⟨d, hd⟩ := rstep_msgs cfg s e
+  refine ⟨st, ?_, ?_⟩
+  · rcases rstep_start cfg s e with h1 | ⟨h1, _⟩
+    · rw [h1]; exact hst
+    · rw [hst] at h1; cases h1
+  · intro r hr h1
+    rw [hd]
+    exact List.mem_append_left _ (hall r hr h1)
+
+theorem done_of_passed {log : List Rec} {s : RR} (h : RInv log s) (hr : s.phase = .reading) (hall : ∀ r ∈ log, r.1 < s.connOff) :
+    Done log s := by
+  obtain ⟨hst, _, hgap⟩ := h.conn hr
+  cases hs : s.start with
+  | none => exact absurd hs hst
+  | some st =>
+    refine ⟨st, hs, ?_⟩
+    intro r hrl h1
+    by_cases hlt : r.1 < s.offset
+    · exact (h.bounds st hs).2.2.2 r hrl h1 hlt
+    · exact absurd (hgap r hrl (by omega) (hall r hrl)) id
+
+theorem rstep_sleep_reading (cfg : RCfg) (s : RR) (hp : s.phase = .reading) :
+    (rstep cfg s .sleepOk).phase = .reading ∧ (rstep cfg s .sleepOk).connOff = s.connOff ∧ (rstep cfg s .sleepOk).slept = true := by
+  cases hs : s.slept <;> simp [rstep, hp, hs]
+
+theorem dropBefore_mem (q : Int) : ∀ (items : List Item) (it : Item), it ∈ dropBefore q items → it ∈ items := by
+  intro items
+  induction items with
+  | nil => intro it h; simp [dropBefore] at h
+  | cons x rest ih =>
+    intro it h
+    simp only [dropBefore] at h
+    split at h
+    · exact List.mem_cons_of_mem _ (ih it h)
+    · exact h
+
+/-- **no starvation**: however far behind the loop is, `k` fault-free rounds (sleep, fetch — any byte budgets, deadline
+passed or not) with `k` at least the number of stored batches / messages from the connection's position on deliver every
+stored record from the start offset on -/
+theorem catch_up (cfg : RCfg) (items : List Item) (nb : Int) (hnb : 0 ≤ nb) (hwf : LWF nb items) (hwm : Int)
+    (hh : ∀ it ∈ items, it.last < hwm) :
+    ∀ (moves : List (Nat × Bool)) (s : RR), RInv (allRecords items) s →
+      (Done (allRecords items) s ∨ (s.phase = .reading ∧ (dropBefore s.connOff items).length ≤ moves.length)) →
+      Done (allRecords items) (worldRun cfg items s (moves.flatMap fun m => [Env.sleepOk, Env.fetch m.1 hwm m.2])) := by
+  intro moves
+  induction moves with
+  | nil =>
+    intro s h hc
+    simp only [List.flatMap_nil, worldRun]
+    rcases hc with hd | ⟨hr, hl⟩
+    · exact hd
+    · have : dropBefore s.connOff items = [] := List.eq_nil_of_length_eq_zero (by simpa using hl)
+      exact done_of_passed h hr (dropBefore_nil_all hwf _ this)
+  | cons mv moves ih =>
+    intro s h hc
+    obtain ⟨b, e⟩ := mv
+    simp only [List.flatMap_cons, List.cons_append, List.nil_append, worldRun]
+    have h1 := rinv_world_step cfg items nb hnb hwf h .sleepOk trivial
+    have h2 := rinv_world_step cfg items nb hnb hwf h1 (.fetch b hwm e) trivial
+    apply ih _ h2
+    have hdone : Done (allRecords items) s → Done (allRecords items)
+        (rstep cfg (rstep cfg s (worldEvent items s .sleepOk)) (worldEvent items (rstep cfg s (worldEvent items s .sleepOk)) (.fetch b hwm e))) :=
+      fun hd => done_step cfg _ (done_step cfg _ hd)
+    rcases hc with hd | ⟨hr, hl⟩
+    · exact Or.inl (hdone hd)
+    · cases hsub : dropBefore s.connOff items with
+      | nil => exact Or.inl (hdone (done_of_passed h hr (dropBefore_nil_all hwf _ hsub)))
+      | cons it rest =>
+        right
+        obtain ⟨p1, p2, p3⟩ := rstep_sleep_reading cfg s hr
+        simp only [worldEvent] at p1 p2 p3 ⊢
+        -- the state after the sleep
+        obtain ⟨s1, hs1⟩ : ∃ s1, s1 = rstep cfg s .sleepOk := ⟨_, rfl⟩
+        rw [← hs1] at p1 p2 p3 ⊢
+        have hq : 0 ≤ s.connOff := by
+          obtain ⟨hst, hoc, _⟩ := h.conn hr
+          cases hs : s.start with
+          | none => exact absurd hs hst
+          | some st => have := h.bounds st hs; omega
+        obtain ⟨d1, d2, d3, d4⟩ := dropBefore_spec s.connOff hwf
+        have hlast := d4 it rest hsub
+        have hitm : it ∈ items := dropBefore_mem s.connOff items it (by rw [hsub]; simp)
+        have hne : hwm ≠ s.connOff := by have := hh it hitm; omega
+        have hsz : it.size ≤ serveBudget (dropBefore s.connOff items) b := by rw [hsub]; simp only [serveBudget]; omega
+        obtain ⟨f1, f2, f3, f4, f5⟩ := fetch_round_gen items nb hnb hwf hwm s.connOff hq e (serveBudget (dropBefore s.connOff items) b)
+        obtain ⟨g1, _, g3⟩ := f5 (by intro it' rest' h'; rw [hsub] at h'; cases h'; exact hsz)
+        have hprog := g3 hne it rest hsub
+        have hnu : (readAll .fixed e s.connOff hwm (truncate (allTokens (dropBefore s.connOff items)) (serveBudget (dropBefore s.connOff items) b))).2.2
+            ≠ .unexpectedEOF := by
+          rw [hsub] at d1 ⊢
+          exact fetch_whole_started nb it rest d1 e s.connOff hwm hne _ (by rw [hsub] at hsz; exact hsz)
+        simp only [serve, p2]
+        rw [fetch_round_pull items nb hnb hwf hwm s.connOff hq e _]
+        -- the round
+        obtain ⟨res, hres⟩ : ∃ res, res = readAll .fixed e s.connOff hwm
+            (truncate (allTokens (dropBefore s.connOff items)) (serveBudget (dropBefore s.connOff items) b)) := ⟨_, rfl⟩
+        rw [← hres] at f4 hprog hnu ⊢
+        have hstep : (rstep cfg s1 (.data res.1 res.2.1 res.2.2)).phase = .reading ∧
+            (rstep cfg s1 (.data res.1 res.2.1 res.2.2)).connOff = res.2.1 := by
+          cases hoc : res.2.2 with
+          | eof => simp [rstep, p1, p3, again, pushMsgs]
+          | timedOut => simp [rstep, p1, p3, again, pushMsgs]
+          | unexpectedEOF => exact absurd hoc hnu
+          | desync => exact absurd hoc f4
+        refine ⟨hstep.1, ?_⟩
+        rw [hstep.2, ← dropBefore_trans s.connOff res.2.1 (by omega) items, hsub]
+        have : it.last < res.2.1 := by omega
+        simp only [dropBefore, this, if_true]
+        have := dropBefore_length_le res.2.1 rest
+        rw [hsub] at hl
+        simp only [List.length_cons] at hl
+        omega
 
 end KV.C02
